@@ -208,7 +208,7 @@ func runC10(c *Ctx) {
 				nv++
 				// no store to Type reachable after the visitor call within the same iteration (before the loop header)
 				hdr, _ := loopOf(call.Block())
-				stop := func(k int) bool { return hdr != nil && k == g.First[hdr] }
+				stop := func(k int) bool { return hdr != nil && g.Ins[k].Block() == hdr }
 				if g.Reach(g.Succ[n], nil, stop)[sn] {
 					okOrder = false
 				}
@@ -234,17 +234,17 @@ func runC10(c *Ctx) {
 	{
 		gf := newIG(m, findTag, nil)
 		bad := ""
-		var cur *ssa.Phi
-		for _, in := range gf.Ins {
-			if phi, ok := in.(*ssa.Phi); ok && isIntegral(phi.Type()) {
-				cur = phi
-			}
-		}
+		cur := c10TagCursor(gf, infoData)
 		if cur == nil {
 			bad = "no cursor variable"
 		} else {
 			init, step := false, false
-			for _, e := range cur.Edges {
+			_, body := loopOf(cur.Block())
+			dead := deadBackPreds(cur.Block(), body)
+			for i, e := range cur.Edges {
+				if dead[i] || stripConv(e) == ssa.Value(cur) {
+					continue // the loop is left on this edge / the cursor stays
+				}
 				if other, ok := matchAdd(e, func(v ssa.Value) bool { return isLoadOfGlobal(v, infoData) }); ok {
 					if k, ok := constInt64(other); ok && k == 8 {
 						init = true
@@ -358,19 +358,21 @@ func runC10(c *Ctx) {
 	{
 		gf := newIG(m, findTag, nil)
 		tagP := findTag.Params[0]
-		var cur *ssa.Phi
-		for _, in := range gf.Ins {
-			if phi, ok := in.(*ssa.Phi); ok && isIntegral(phi.Type()) {
-				cur = phi
-			}
-		}
+		cur := c10TagCursor(gf, infoData)
 		nmatch, nend := 0, 0
 		bad := ""
-		for _, rn := range gf.Returns() {
-			ret := gf.Ins[rn].(*ssa.Return)
-			facts := gf.FactsAt(rn)
-			if isZeroConst(ret.Results[0]) && isZeroConst(ret.Results[1]) {
-				nend++
+		seen := map[string]bool{}
+		for _, rc := range gf.ReturnCases() {
+			if len(rc.Vals) != 2 {
+				continue
+			}
+			// (what the tests on the way out of the loop said belongs to the case)
+			facts := append(gf.CaseFacts(rc), rc.Req...)
+			if isZeroConst(rc.Vals[0]) && isZeroConst(rc.Vals[1]) {
+				if !seen["end"] {
+					nend++
+					seen["end"] = true
+				}
 				if !hasFact(facts, func(f Fact) bool {
 					return cmpMatch(f, token.EQL, func(v ssa.Value) bool { return valueReads(v, tagTypeF, cur) }, isZeroConst)
 				}) {
@@ -378,17 +380,22 @@ func runC10(c *Ctx) {
 				}
 				continue
 			}
+			k := fmt.Sprint(rc.Vals[0].Name(), rc.Vals[1].Name(), rc.At)
+			if seen[k] {
+				continue
+			}
+			seen[k] = true
 			nmatch++
 			if !hasFact(facts, func(f Fact) bool {
 				return cmpMatch(f, token.EQL, func(v ssa.Value) bool { return valueReads(v, tagTypeF, cur) }, func(v ssa.Value) bool { return v == ssa.Value(tagP) })
 			}) {
 				bad = "a tag is returned that has not been compared equal to the requested type"
 			}
-			p0, p1 := z.Of(ret.Results[0]), z.Of(ret.Results[1])
+			p0, p1 := z.Of(rc.Vals[0]), z.Of(rc.Vals[1])
 			if cur == nil || !p0.equal(polyAtom(z.defaultAtom(cur)).add(polyConst(8), 1)) {
 				bad = "the payload pointer returned is " + p0.String() + ", expected the current tag + 8"
 			}
-			if !valueReads(ret.Results[1], tagSizeF, cur) || !strings.HasPrefix(p1.String(), "-8 + ") {
+			if !valueReads(rc.Vals[1], tagSizeF, cur) || !strings.HasPrefix(p1.String(), "-8 + ") {
 				bad = "the payload size returned is " + p1.String() + ", expected the current tag's size - 8"
 			}
 		}
@@ -574,6 +581,9 @@ func resolvesTo(p ssa.Value, base ssa.Value) bool {
 		if bphi, ok := base.(*ssa.Phi); ok && bphi.Block() == phi.Block() && len(bphi.Edges) == len(phi.Edges) {
 			all := true
 			for i, e := range phi.Edges {
+				if e == ssa.Value(phi) && bphi.Edges[i] == ssa.Value(bphi) {
+					continue // both keep their value on this edge
+				}
 				if ptrFromUintptr(e) != bphi.Edges[i] {
 					all = false
 				}
@@ -677,4 +687,25 @@ func matchAdd(e ssa.Value, isA func(ssa.Value) bool) (ssa.Value, bool) {
 		return b.X, true
 	}
 	return nil, false
+}
+
+// c10TagCursor: the variable of findTagByType's loop that starts at infoData+8.
+func c10TagCursor(g *IG, infoData *ssa.Global) *ssa.Phi {
+	for _, in := range g.Ins {
+		phi, ok := in.(*ssa.Phi)
+		if !ok || !isIntegral(phi.Type()) {
+			continue
+		}
+		if h, _ := loopOf(phi.Block()); h != phi.Block() {
+			continue
+		}
+		for _, e := range phi.Edges {
+			if other, ok := matchAdd(e, func(v ssa.Value) bool { return isLoadOfGlobal(v, infoData) }); ok {
+				if k, ok := constInt64(other); ok && k == 8 {
+					return phi
+				}
+			}
+		}
+	}
+	return nil
 }
